@@ -93,6 +93,46 @@ pub fn judge_threaded(c: &FCase, base: &Outcome, o: &Outcome, profile: &str) -> 
     }
 }
 
+/// `judge_threaded`, then — for a threaded run that fails or is incomplete where the sequential run is complete —
+/// the diagnostic of c04_orders.rs: the same call is repeated four times in a worker with the relation observer
+/// installed.  If every time the recorded relation set is sound yet degenerate (all congruences valid, >= 20
+/// independent kernel vectors, at most one in ten of them splits n under an independent final step — a sound set
+/// splits n with about every second vector), whether or not that repetition happened to succeed, the failure is classed `factor+threads|degenerate-relation-set` (a listed known finding: the outcome
+/// depends on which polynomials are sieved, not on the schedule).  Anything else keeps its original class.
+pub fn judge_threaded_diag(c: &FCase, base: &Outcome, o: &Outcome, profile: &str) -> Result<(), Fail> {
+    let f = match judge_threaded(c, base, o, profile) {
+        Ok(()) => return Ok(()),
+        Err(f) => f,
+    };
+    if !(f.class.ends_with("|failure-with-threads") || f.class.ends_with("|incomplete-with-threads")) {
+        return Err(f);
+    }
+    let mut d = c.clone();
+    d.prefs.perturb = None;
+    let mut job = d.job();
+    job["kind"] = json!("diagnose");
+    let mut summary = vec![];
+    for _ in 0..4 {
+        let Ok(res) = run_jobs("opt", &[job.clone()], 1, &|_| 300.0) else { return Err(f) };
+        let crate::worker::JobResult::Resp(v) = &res[0] else { return Err(f) };
+        let stores = v["stores"].as_array().cloned().unwrap_or_default();
+        let degenerate = !stores.is_empty()
+            && stores.iter().all(|s| {
+                let k = s["kernel_dim"].as_u64().unwrap_or(0).min(256);
+                s["all_valid"] == true && k >= 20 && s["splitting"].as_u64().unwrap_or(u64::MAX) * 10 <= k
+            });
+        if !degenerate {
+            return Err(f);
+        }
+        summary.push(stores[0].to_string());
+    }
+    Err(Fail::new(
+        "factor+threads|degenerate-relation-set",
+        format!("{} -- independent final step over the relations recorded from 4 repetitions: {}", f.what, summary.join(" ")),
+    )
+    .with_detail(format!("n={},algo={},use_double={:?}", c.n, c.algo, c.prefs.use_double)))
+}
+
 /// inputs that make workers contend: small composites that finish within a few polynomials,
 /// and inputs sized to enable single (>= 97 bits) and double large primes
 pub fn contention_cases(ctx: &Ctx, check: &str, per: usize) -> Vec<FCase> {
@@ -211,7 +251,7 @@ fn run_threads(ctx: &Ctx, l: &mut Local) {
         }
         l.nontrivial(c.key());
         l.sample(&format!("threads:{}", c.algo), || serde_json::to_value(c).unwrap());
-        if let Err(f) = judge_threaded(c, &base[i], &o, "opt") {
+        if let Err(f) = judge_threaded_diag(c, &base[i], &o, "opt") {
             ctx.violation(check, &f, json!({"case": c, "single_threaded": format!("{:?}", base[i])}));
         }
     }
@@ -250,7 +290,7 @@ fn replay(ctx: &Ctx, check: &str, case: &Value) -> Result<(), Fail> {
         // schedules are not reproducible: repeat
         for _ in 0..20 {
             let r = run_jobs("opt", &[c.job()], 1, &|_| 600.0).map_err(|e| Fail::new("HARNESS|worker", e))?;
-            judge_threaded(&c, &base, &Outcome::from_job(&r[0]), "opt")?;
+            judge_threaded_diag(&c, &base, &Outcome::from_job(&r[0]), "opt")?;
         }
         Ok(())
     } else {
